@@ -236,7 +236,7 @@ def o_iter(case):
         except Exception as e:  # pylint: disable=broad-except
             raise Fail(f"foreign-exception:{type(e).__name__}@{lib_frame(e)}", f"iteration (quitonerror={qoe}): {type(e).__name__}: {e}") from e
     hostile = any(i["k"] in ("damaged", "decoy", "filler") or i.get("arbitrary") or i.get("syncy") for i in items)
-    cls = [f"qoe{qoe}", case["stream"], "raised" if raised else "quiet"]
+    cls = [f"qoe{qoe}", case["stream"], "raised" if raised else "quiet"] + (["long-run"] if case.get("long") else [])
     return Res(nontrivial=hostile or bool(case["script"]), classes=cls)
 
 
@@ -255,7 +255,40 @@ def s_iter(draw, tier):
     }
 
 
+def e_iter_long(tier, shard, nshards):
+    """long runs of error-path items (every one of them is handled inside a single read() call in ignore / log mode)"""
+    from pv import framing as fr
+
+    n = 1500 if tier == "quick" else 12000
+    good = {"k": "frame", "b": fr.build_frame(b"\xfe\x80\x01\x02").hex()}
+    k = 0
+    for kind in ("bad-header", "wrong-crc", "undecodable", "truncated-nmea", "filler"):
+        for qoe in (0, 1, 2):
+            k += 1
+            if k % nshards != shard:
+                continue
+            items = [good]
+            for j in range(n):
+                if kind == "bad-header":
+                    b = b"\xd3\xff"
+                elif kind == "wrong-crc":
+                    b = fr.build_frame(bytes([0xFE, 0x80, j & 0xFF, j >> 8]))[:-1] + b"\x00"
+                    if fr.frame_problem(b) is None:
+                        b = b[:-1] + b"\x01"
+                elif kind == "undecodable":
+                    b = fr.build_frame(bytes([0x3E, 0xD0, j & 0xFF]))  # 1005 with a 3-byte payload
+                elif kind == "truncated-nmea":
+                    b = b"$G" + bytes([65 + j % 20]) + b"\n"
+                else:
+                    b = fr.build_frame(b"")
+                items.append({"k": "decoy", "b": b.hex()})
+            items.append(good)
+            yield {"items": items, "stream": "bytesio", "script": [], "qoe": qoe, "validate": 1, "parsed": True, "handler": bool(j & 1), "long": n}
+
+
 def _short(c):
+    if c.get("long"):
+        return {"long": c["long"], "qoe": c["qoe"], "items": f"{len(c['items'])} error-path items between two good frames"}
     c = dict(c)
     for k in ("payload", "buf"):
         if k in c and len(c[k]) > 120:
@@ -271,6 +304,6 @@ SUBS = [
     Sub("mutated_messages", o_mut, strategy=s_mut, examples=(300, 8000), rule="mutation changed the payload", need={"truncate": 1, "splice": 1, "err": 1}, sample=_short),
     Sub("vtec_arbitrary", o_vtec, strategy=s_vtec, examples=(100, 3000), rule="every case", sample=_short),
     Sub("static_parse", o_static, strategy=s_static, examples=(250, 6000), rule="every case", need={"buflen<=6": 1}, sample=_short),
-    Sub("stream_iteration", o_iter, strategy=s_iter, examples=(200, 5000), rule="error-path item or read script present", need={"qoe0": 1, "qoe1": 1, "qoe2": 1}, sample=_short),
+    Sub("stream_iteration", o_iter, strategy=s_iter, enum=e_iter_long, examples=(200, 5000), rule="error-path item or read script present", need={"qoe0": 1, "qoe1": 1, "qoe2": 1, "long-run": 1}, sample=_short),
     __import__("pv.fuzz.campaign", fromlist=["make"]).make("C04", ("C04",)),
 ]
